@@ -46,6 +46,12 @@ Theorem C28_holds_b_correct :
 Proof. exact C28_holds_b_spec. Qed.
 Print Assumptions C28_holds_b_correct.
 
+(* the run-time terms translated from the builder's IR dump: their side conditions are decided by
+   an executable check (evaluated on every run for every translated flow), which is sound *)
+Theorem C28_translated_terms_wf_check_sound : forall f, wf_rb f = true -> flow_wf (rinterp f).
+Proof. exact wf_rb_sound. Qed.
+Print Assumptions C28_translated_terms_wf_check_sound.
+
 (* non-vacuity: every corpus flow that the harness runs satisfies the hypotheses *)
 Example C28_corpus_wf : Forall flow_wf corpus.
 Proof. exact corpus_wf. Qed.
